@@ -208,9 +208,19 @@ def run(ctx):
         for i, k, s in arr:
             if len(s['r']['o']) == 3 and all(has_origin(b.operand_origins(o), r'call:.*Hasher::finish$') for o in s['r']['o']):
                 ok = True
-        ctx.check(P + ':S10-3:crc-three-octets', 'origin', 'the emitted checksum is three octets derived from Hasher::finish of the tee-d CRC', ok, function=b.path)
         shifts = sorted(o['k']['v'] for i, k, s in b.stmts(lambda s: s['r']['k'] == 'bin' and s['r']['op'] in ('Shr', 'ShrUnchecked')) for o in s['r']['o'][1:] if 'k' in o and 'v' in o['k'])
-        ctx.check(P + ':S10-3:crc-shifts', 'R-table', 'the three checksum octets are crc>>16, crc>>8, crc', shifts == [8, 16], function=b.path, table=shifts)
+        # equivalent idiom: the low three octets of the big-endian u32, `&(crc as u32).to_be_bytes()[1..]`
+        from rules.common import single_defs, resolve_value
+        defs = single_defs(b)
+        be = False
+        for i, t in b.calls(r'ops::Index::index$'):
+            if not has_origin(b.operand_origins(t['args'][0]), r'call:.*u32::to_be_bytes$') or not has_origin(b.operand_origins(t['args'][0]), r'call:.*Hasher::finish$'):
+                continue
+            kk, rv = resolve_value(b, t['args'][1], defs)
+            if kk == 'rv' and rv['k'] == 'agg' and rv['o'] and 'k' in rv['o'][0] and rv['o'][0]['k'].get('v') == 1 and (len(rv['o']) == 1 or ('k' in rv['o'][1] and rv['o'][1]['k'].get('v') == 4)):
+                be = True
+        ctx.check(P + ':S10-3:crc-three-octets', 'origin', 'the emitted checksum is three octets derived from Hasher::finish of the tee-d CRC', ok or be, function=b.path)
+        ctx.check(P + ':S10-3:crc-shifts', 'R-table', 'the three checksum octets are crc>>16, crc>>8, crc (or the low three octets of to_be_bytes)', shifts == [8, 16] or be, function=b.path, table=shifts)
     stream.r_pair(ctx, P)
     stream.wrapper_finishers(ctx, P)
     block_type_tables(ctx, P)
